@@ -17,7 +17,8 @@ meta = {
     "breaks": agent.get("summary", ""),
     "needs": agent.get("needs", ""),
     "files": agent.get("files", []),
-    "written_by": "independent sub-agent (round 2) that saw only the property text and a private worktree; asked for a "
+    "written_by": os.environ.get("SEED_ROUND_TEXT") or
+                  "independent sub-agent (round 2) that saw only the property text and a private worktree; asked for a "
                   "less obvious site than the first idea",
     "confirmed": "tools/confirm_seed.sh: demo.py exits 0 on the unchanged tree and 1 with patch.diff applied; the "
                  "repository's suite passes with the patch (2588 passed, 24 skipped)",
@@ -26,6 +27,8 @@ meta = {
     "result": result,
     "first_signature": sig,
 }
+if os.environ.get("ALSO_CHECKS"):
+    meta["also_checks"] = os.environ["ALSO_CHECKS"].split()
 with open(os.path.join(d, "meta.json"), "w") as f:
     json.dump(meta, f, indent=1, ensure_ascii=False)
     f.write("\n")
